@@ -161,7 +161,11 @@ def _loop_discipline(chk, mod, f, open_test_ok):
                 if nonempty and top:
                     pd_ok, parent_var = True, st_.targets[0].id
     parent_defs = [ast.unparse(p)[:120] for p in ob if isinstance(p, ast.If) or (isinstance(p, ast.Assign) and isinstance(p.value, ast.IfExp))]
-    chk.ob("C03.R3-builder", f"{mod.name}: OPEN: parent = top of the stack (root when empty)", True if pd_ok else None, where, found=parent_defs, accepted="parent = stack[-1] if stack else root")
+    # positively wrong: the parent is read from another position of the stack than its top
+    wrong_pos = [ast.unparse(x)[:40] for st_ in ob for x in ast.walk(st_) if isinstance(x, ast.Subscript) and isinstance(x.ctx, ast.Load) and H.name_id(x.value) == stack_name
+                 and not (isinstance(x.slice, ast.UnaryOp) and isinstance(x.slice.op, ast.USub) and isinstance(x.slice.operand, ast.Constant) and x.slice.operand.value == 1)]
+    chk.ob("C03.R3-builder", f"{mod.name}: OPEN: parent = top of the stack (root when empty)", True if pd_ok and not wrong_pos else (False if wrong_pos else None), where, found=parent_defs + wrong_pos, accepted="parent = stack[-1] if stack else root",
+           why="any other position (e.g. the bottom of the stack) makes the outermost open event the parent of everything")
     direct = lambda c: any(isinstance(st, ast.Expr) and st.value is c for st in ob)
     uncond = bool(pushes) and bool(edges) and direct(pushes[0]) and direct(edges[0])
     push_ok = len(pushes) == 1 and len(edges) == 1 and not pops_open and uncond
